@@ -278,3 +278,23 @@ func (C9I2) C9()  {}
 
 type C9MarshalerI interface{ MarshalJSON() ([]byte, error) }
 type C9TextI interface{ MarshalText() ([]byte, error) }
+
+// C9Fold: field names whose case-insensitive spellings leave ASCII (Unicode simple-fold orbits k/K/U+212A,
+// s/S/U+017F, σ/Σ/ς, ǆ/ǅ/Ǆ), change UTF-8 length when folded, or contain the delimiters that v1 folding keeps.
+type C9Fold struct {
+	Kind   int
+	Sks    string `json:"sks"`
+	Σς     int
+	Dz     int `json:"ǆ"`
+	Straße int `json:"straße"`
+	KK     int `json:"k_k"`
+	Dash   int `json:"a-b,omitempty"`
+	Ii     int `json:"ıİ"`
+	C9FoldInner
+	P *C9FoldInner `json:"skip"`
+}
+
+type C9FoldInner struct {
+	Task   int `json:"task"`
+	Kelvin string
+}
